@@ -1,6 +1,6 @@
 From Coq Require Import ZArith List Bool Arith.
 From Cspuz Require Import Lib.PyErr Core.Expr Core.Program Graph.GraphModel Graph.Acyclic
-  Graph.AcyclicExact Graph.AcyclicFlags Graph.AcyclicDecide Graph.AcyclicExamples.
+  Graph.AcyclicExact Graph.AcyclicFlags Graph.AcyclicDecide Graph.AcyclicUnionFind Graph.AcyclicExamples.
 Import ListNotations.
 Local Open Scope nat_scope.
 
@@ -61,7 +61,23 @@ Theorem forest_b_spec : forall g A, wf_graph g = true -> (forest_b g A = true <-
 Proof. exact AcyclicDecide.forest_b_spec. Qed.
 Print Assumptions forest_b_spec.
 
+(* the bridge formulation of "no cycle" coincides with the union-find formulation
+   (an active edge never joins two vertices already joined by earlier active
+   edges), for every multigraph, loops included *)
+Theorem uf_forest_spec : forall g A, uf_forest g A = true <-> forest g A.
+Proof. exact AcyclicUnionFind.uf_forest_spec. Qed.
+Print Assumptions uf_forest_spec.
+
 (* n = 0 is outside the domain: int_array(0, 0, -1) raises ValueError *)
 Theorem acyclic_zero_vertices : forall st flags g, nv g = 0 -> post_acyclic st flags g = Err ValueError.
 Proof. exact AcyclicExamples.post_acyclic_zero_vertices. Qed.
 Print Assumptions acyclic_zero_vertices.
+
+(* why the statement says loop-free: an active self-loop is a cycle the encoding accepts *)
+Theorem acyclic_loop_free_needed :
+  let g := {| nv := 1; edges := [(0, 0)] |} in
+  let A := fun _ : nat => true in
+  wf_graph g = true /\
+  (exists r, ranks_in_range g r = true /\ cert_acyclic g A r = true) /\ ~ forest g A.
+Proof. exact AcyclicExamples.loop_free_needed. Qed.
+Print Assumptions acyclic_loop_free_needed.
